@@ -7,6 +7,12 @@ CHECKS = {
  "C01": ("exploration", "bounded-exhaustive enumeration of expression trees x parenthesisations x positions; emitted SQL re-parsed with ClickHouse priorities and evaluated over all row valuations against the PQL tree", "DESIGN.md §4 C01",
          "Every expression tree over 36 node kinds up to N internal nodes, in three parenthesisation modes, at every expression position, is compiled; the SQL expression found at the position is evaluated by an independent evaluator on every valuation of its columns over small domains (NULL included) and must equal the PQL tree's value (and fail where the PQL tree is ill-typed).",
          "shared primitive semantics (DESIGN.md appendix A); SQL read with ClickHouse operator priorities; unknown functions interpreted injectively"),
+ "C02": ("model_checking", "explicit-state exploration of all operator sequences to depth d on the real compiler; emitted SQL executed on every small database and compared with a left-to-right pipeline interpreter", "DESIGN.md §4 C02",
+         "Every operator sequence up to depth d over 25 schema-aware operator variants (all eleven operators) is compiled by the real compiler; the SQL is run by an independent list-semantics evaluator on every database of up to m rows and must equal the result of interpreting the pipeline operator by operator: columns, rows, and order wherever a sort determines it. Covers every (splitter state x next operator) transition several times over.",
+         "list semantics of the SQL evaluator (order-preserving subqueries, stable ORDER BY); shared scalar primitives"),
+ "C03": ("model_checking", "explicit-state exploration of join programs (prefix x kind x right pipeline x condition x suffix) on the real compiler; SQL executed on every pair of small tables against reference join semantics", "DESIGN.md §4 C03",
+         "All combinations of 7 left prefixes, 4 kinds, 8 right-hand pipelines (nested joins included), 7 condition forms and 8 suffixes (second joins included) - quick: at most three non-default parts - are compiled and executed on every pair of small tables with NULL keys, duplicates and empty tables; results must equal the reference join semantics.",
+         "join result columns = left then right; ambiguous-name programs skipped and counted"),
  "C04": ("exploration", "bounded-exhaustive enumeration of literal/name contents at every position kind, compared token-by-token under two independent SQL lexers", "DESIGN.md §4 C04",
          "32 skeletons (one per position where a string, name or number can occur) x every content over a 19-symbol adversarial alphabet up to length n (and a quote/backslash sub-alphabet to a larger length) x every PQL spelling: the emitted SQL must have the same token kinds and identical non-hole tokens as the skeleton with a neutral content, and the hole tokens must decode (ClickHouse rules; standard rules when no backslash) to the PQL value.",
          "sqlx lexers implement standard and ClickHouse quoting rules; ClickHouse is the target dialect for decoding"),
